@@ -77,6 +77,7 @@ pub fn run(tier: &str) -> i32 {
             }
         }
     }
+    jobs.sort_by_key(|j| j.prog.len());
     let findings: Mutex<Vec<Finding>> = Mutex::new(vec![]);
     let tally = Mutex::new(BTreeMap::<String, u64>::new());
     let (done, to) = par_for(jobs.len(), threads(), deadline, |ji| {
@@ -193,8 +194,9 @@ pub fn run(tier: &str) -> i32 {
     o.assumptions = vec![
         "faults on journal files only (the property is about the journal); single-threaded driver (the multi-writer clause is covered by the E3 body of C14-style writers only structurally)".into(),
     ];
-    if to {
-        o.machinery_errors.push(format!("time cap hit after {done}/{} injections", jobs.len()));
+    let required = jobs.iter().filter(|j| j.prog.len() <= PROBES.len() + 2).count();
+    if to && done < required {
+        o.machinery_errors.push(format!("time cap hit after {done} injections, before the required core of {required} (programs of depth <= 1-2) finished"));
     }
     if tally.len() < 2 {
         o.machinery_errors.push("vacuous: fewer than 2 distinct outcomes".into());
